@@ -1,5 +1,5 @@
 """C10 — every response carries the hardening and no-cache headers, each exactly once."""
-from vlib import common as C, serve as S, reqgen as G, strict_http as H, servecheck as K
+from vlib import common as C, serve as S, reqgen as G, strict_http as H, servecheck as K, gen_c10 as X
 from props import c04, c05
 
 DRIVERS = ['Serve']   # model driver files this check runs: scopes translator failures to the tables they (and the proofs) import
@@ -7,26 +7,32 @@ TRUSTED = []
 ASSUMPTIONS = ['responses are those of the C04 and C05 campaigns plus a stream over every status class']
 WITH_MODEL = True
 
-def judge(res, results):
+def judge(res, results, label=''):
     for c, r, il, ml in results:
         res.evaluations += 1
-        res.distinct.add(hash((c.entry, c.raw, c.app)))
+        res.distinct.add(hash((c.entry, c.raw, c.app, c.ws, c.alloc, label, c.note if c.kind == 'history' else None)))
         if ml is not None:
             res.programs += 1
-            if il != ml: res.disagree(c.line[:400], il[:400], ml[:400], 'Header.get_header_list/Server')
+            if il != ml: res.disagree(c.line[:400], il[:400], ml[:400], 'Header.get_header_list/Server' + (' env=' + label if label else ''))
         head = r['head']
         if head.startswith(('panic', 'abort')):
             continue    # no response at all: that is C04's finding, not C10's
-        full = r['writes'][0] if r['writes'] else b''
-        if not full: continue
-        resp, why = K.parse_resp(full)
-        if resp is None:
-            continue    # malformed: C05's finding
-        res.count(f'status {resp["status"]} {c.entry}')
-        bad = K.judge_c10(res, c, resp)
-        if bad:
-            res.fail('missing-or-duplicate:' + bad[0], c.line[:300], str([h for h in resp['headers'] if h[0] in bad])[:200], None,
-                     f'C10: status {resp["status"]} response lacks or repeats {bad}; request {c.raw[:80]!r}')
+        # every observation point: the bytes handed to the transport and, on the legacy entry point, the bytes returned to the caller
+        seen = [r['writes'][0]] if r['writes'] else []
+        if head.startswith('ret:') and len(head) > 4:
+            ret = C.unhx(head[4:])
+            if ret and ret not in seen: seen.append(ret)
+        for full in seen:
+            if not full: continue
+            resp = X.parse(full)
+            if resp is None:
+                continue    # no head at all: C05's finding
+            res.count(f'status {resp["status"]} {c.entry}')
+            res.count(f'kind {c.kind}')
+            bad = X.judge_headers(resp)
+            if bad:
+                res.fail('missing-or-duplicate:' + bad[0], c.line[:300], str([h for h in resp['headers'] if h[0] in bad])[:200], None,
+                         f'C10: status {resp["status"]} response lacks or repeats {bad}; entry {c.entry}{" env " + label if label else ""}; request {c.raw[:120]!r}')
 
 def run(res, tier, seed):
     rng = C.Rng(seed)
@@ -65,11 +71,55 @@ def run(res, tier, seed):
         ('RWS_CONFIG_CORS_ALLOW_ALL', 'false'), ('RWS_CONFIG_CORS_ALLOW_ORIGINS', 'http://a,http://b'), ('RWS_CONFIG_CORS_ALLOW_CREDENTIALS', 'true'),
         ('RWS_CONFIG_CORS_ALLOW_HEADERS', 'X-A,Vary'), ('RWS_CONFIG_CORS_ALLOW_METHODS', 'GET,PUT'), ('RWS_CONFIG_CORS_EXPOSE_HEADERS', 'Cache-Control'),
         ('RWS_CONFIG_CORS_MAX_AGE', '5')]
-    results = K.run_batches(batches, with_model=WITH_MODEL)
-    results += K.run_batches([(tree, cases[:400])], with_model=WITH_MODEL, env=env)
-    judge(res, results)
+    # ---- the input classes of vlib/gen_c10.py, one harness process per family (they run side by side)
+    # (vlib.common.Rng is SplitMix64 started at seed*gamma: neighbouring seeds give the SAME stream shifted by one draw, and the first
+    #  data-dependent number of draws lines them up - after c04.build the state is the same for seeds 1, 2 and 3.  The families below
+    #  draw from a fork of the fresh seed state (a hash of it), so they do differ from seed to seed)
+    xr = C.Rng(seed).fork('gen_c10')
+    own = []
+    def batch(f, *a):
+        t = X.shape_tree(xr, tier)
+        own.append((t, f(xr, tier, t, *a)))
+    for f in (X.route_matrix, X.request_lines, X.client_profiles, X.semantic_values, X.cors_matrix, X.range_shapes, X.form_paths, X.error_paths, X.long_values, X.histories):
+        batch(f)
+    batch(X.random_mix, 1500 if tier == 'quick' else 40000)
+    if tier != 'quick':
+        for _ in range(3): batch(X.random_mix, 40000)
+    for variant in range(4):     # the served directory holds the names the server itself looks for
+        t = X.pages_tree(xr, variant)
+        own.append((t, X.route_matrix(xr, 'thorough' if tier != 'quick' or variant == 0 else 'quick', t, kind='own-pages')))
+    batches += own
+    # ---- configurations: each is process state of the harness, so each gets its own run; all runs side by side
+    import threading
+    groups = [('', None, batches)]
+    for label, pairs in X.env_variants(tier):
+        t = X.shape_tree(xr, tier)
+        groups.append((label, pairs, [(t, X.env_cases(xr, tier, t))]))
+    t = X.shape_tree(xr, tier)
+    groups.append(('configured', env, [(t, X.env_cases(xr, tier, t))]))
+    out = [None] * len(groups)
+    def work(i):
+        try: out[i] = K.run_batches(groups[i][2], with_model=WITH_MODEL, env=groups[i][1])
+        except Exception as ex: out[i] = ex
+    ths = [threading.Thread(target=work, args=(i,)) for i in range(len(groups))]
+    for th in ths: th.start()
+    for th in ths: th.join()
+    # the status-class stream once more under the configured list (same tree: after the default run has finished with it)
+    groups.append(('configured', env, [(tree, cases[:400] + cases[540:700])]))
+    out.append(K.run_batches(groups[-1][2], with_model=WITH_MODEL, env=env))
+    results = []
+    for (label, pairs, bs), got in zip(groups, out):
+        if isinstance(got, Exception): raise got
+        judge(res, got, label)
+        results += got[:2] if not results else []
+        for tr, _ in bs:
+            if not getattr(tr, 'setup_ok', True): res.notes.append(f'tree setup failed for a batch (env {label or "default"})')
     res.rule = ('every response of the C04 campaign (mutated/malformed/oversized requests, failing handlers) and of the C05 campaign, plus 9 methods x '
                 '10 targets x 6 header sets on both entry points (200, 204, 206, 400, 404, 416 paths), requests carrying each header name the server source mentions (three spellings) and all client hints at once, with CORS allow-all on and off; '
-                'distinct = (entry, request, handler)')
+                'plus the families of vlib/gen_c10.py: every route and tree name (one file per media type, sizes 0..70001, directory and link shapes incl. the 500 path, served directories holding the server\'s own page names) x 9 methods x 4 entry points '
+                '(Server::process, Server::process_request, App::execute, App::handle_request), request-line spellings (method/version case, 4+ versions, both line ends, blanks), browser/tool/proxy header profiles, '
+                'meaningful values of 88 request headers, Origin x preflight shapes, range shapes (1..200 ranges), every accept/reject branch of the four built-in endpoints, server-made 400s (non-origin-form targets x methods, '
+                'failing handlers x methods x messages, read errors, request buffers 0..100000), head sizes up to 9.5 KB, request histories, random compositions; under 6 (quick) / 16 configurations of the CORS switch, lists and buffer size; '
+                'oracle also reads responses with an unregistered status and the bytes returned by the legacy entry point; distinct = (entry, request, handler, transport, buffer, configuration)')
     for c, r, il, ml in results[:2]:
         res.sample({'entry': c.entry, 'request': c.raw[:80].decode('latin1'), 'headers': [h for h in (K.parse_resp(r['recv'])[0] or {'headers': []})['headers']][:6]})
